@@ -24,6 +24,11 @@ OBLIGATIONS = [
     "KafVerif.C24.session_denied_noop",
     "KafVerif.C24.session_perItem_denied_untouched",
     "KafVerif.C24.memoised_decisions_violate",
+    "KafVerif.C24.principal_depends_only_on_request_and_conn",
+    "KafVerif.C24.principal_history_independent",
+    "KafVerif.C24.conn_decision_depends_only_on_request_and_conn",
+    "KafVerif.C24.conn_session_denied_noop",
+    "KafVerif.C24.sticky_principal_violates",
 ]
 BUILDS = {"b": ("root", "./cmd/broker", ["C10", "C11", "C24"])}   # C11 dir: pkg/broker export + `tables` (type name -> key)
 LEVEL_TEXT = ("Lean: obligation (decide) over the guard table REGENERATED with go/ast from handler.Handle — every dispatch "
@@ -38,7 +43,15 @@ LEVEL_TEXT = ("Lean: obligation (decide) over the guard table REGENERATED with g
               "(principal, action, resource, name); composed with the gate: after any history a request the ACL denies changes "
               "nothing.  Tie: multi-principal sessions on ONE handler whose principal ids / resource names contain separator "
               "characters and are separator-joined concatenations of each other; EVERY request is judged by the independent "
-              "ACL reading (Python oracle = Lean Acl.allows = Lean session step, compared per request), in both directions.")
+              "ACL reading (Python oracle = Lean Acl.allows = Lean session step, compared per request), in both directions.  "
+              "Connection model (AclConn: buildConnContextFunc + principalFromContext + one handler serving several connections): "
+              "for every broker configuration, every served connection and every history of earlier requests on any connection, "
+              "the principal of a request is principalSpec(configuration, the connection's immutable attributes, THAT request's "
+              "client id) and its decision is Acl.allows for that principal; a request that principal may not make changes nothing.  "
+              "Tie: connection sessions through the real broker.Server connection loop with the real buildConnContextFunc for every "
+              "principal source x PROXY-protocol setting (PROXY v1/v2/LOCAL/missing/malformed headers, remote addresses with and "
+              "without port), requests with different client ids interleaved on each connection; principal and ConnContext "
+              "compared three ways (Lean connStep, Lean principalSpec, Python oracle; the harness reports the live ConnContext).")
 TECHNIQUE = "generated-facts obligation + Lean theorems over the gate model + differential run + direct monitor on snapshots"
 ASSUMPTIONS = [
     "the authorizer's verdict is taken from the real acl.Authorizer (C23 is about Allows itself)",
@@ -52,6 +65,12 @@ ASSUMPTIONS = [
     "the denial bookkeeping touch at HEAD (h.authorizer, h.authLogLast, h.authMetrics) and its step reads only the authorizer; "
     "that the real handler keeps nothing else that influences a decision is not derived from the source but validated by the "
     "multi-principal session stream (one handler, colliding principal/resource names, every request judged independently)",
+    "connection model: PROXY header parsing (bytes -> ProxyInfo) is not modelled in Lean, the model starts from what "
+    "ReadProxyProtocol returns (absent / malformed / LOCAL / source address); the Python oracle parses the generated v1/v2 "
+    "headers itself and the harness reports the ConnContext the real parser produced, compared per request.  strings.EqualFold / "
+    "ToLower on the principal source are modelled with ASCII folding (the generators stay in ASCII).  That a ConnContext is only "
+    "read after buildConnContextFunc returned it is the model's reading of HEAD (connStep), validated by the connection stream "
+    "(ConnContext reported after every request), not derived from the source",
 ]
 GEN = os.path.join(lib.LEAN, "KafVerif", "Gen", "C24Guards.lean")
 ACT = {"": 0, "ActionProduce": 1, "ActionFetch": 2, "ActionGroupRead": 3, "ActionGroupWrite": 4, "ActionGroupAdmin": 5, "ActionAdmin": 6}
@@ -366,6 +385,327 @@ def gen_collision_session(rng, nops):
     return auto, ops, acl
 
 
+# ---------------------------------------------------------------------------------------------------------------------
+# connection stream: WHICH PRINCIPAL a request is authorised as.  Requests travel over connections served by the real
+# broker.Server loop with the ConnContextFunc of the real buildConnContextFunc (harness ops srv / conn / cdo); the expected
+# principal of every request is an independent reading of (broker configuration, the connection's immutable attributes,
+# THAT request's client id) — nothing an earlier request on the connection carried.
+PROXY_V2_SIG = b"\r\n\r\n\x00\r\nQUIT\n"
+WS = " \t\r\n"
+
+
+def tok(v):
+    """=<escaped> or ~ (None)"""
+    return "~" if v is None else "=" + enc(v)
+
+
+def untok(t):
+    return None if t == "~" else dec(t[1:])
+
+
+def parse_env_bool(v, fallback=False):
+    v = (v or "").strip(WS).lower()
+    if v in ("1", "true", "yes", "on"):
+        return True
+    if v in ("0", "false", "no", "off"):
+        return False
+    return fallback
+
+
+def join_host_port(h, p):
+    return "[%s]:%s" % (h, p) if (":" in h or "%" in h) else "%s:%s" % (h, p)
+
+
+def host_from_addr(addr):
+    """hostFromAddr: the host of host:port / [host]:port, the whole string when it is not of that form"""
+    if addr == "":
+        return ""
+    i = addr.rfind(":")
+    if i < 0:
+        return addr
+    if addr[0] == "[":
+        e = addr.find("]")
+        if e < 0 or e + 1 != i:
+            return addr
+        host, rest_open, rest_close = addr[1:e], addr[1:], addr[e + 1:]
+    else:
+        host, rest_open, rest_close = addr[:i], addr, addr
+        if ":" in host:
+            return addr
+    if "[" in rest_open or "]" in rest_close:
+        return addr
+    return host
+
+
+def parse_proxy(b):
+    """what a PROXY-protocol reader finds in front of the first frame: ('absent',) ('malformed',) ('local',) ('addr', src)"""
+    import ipaddress
+    if b[:5] == b"PROXY":
+        nl = b.find(b"\n")
+        if nl < 0 or nl >= 256:
+            return ("malformed",)
+        parts = b[:nl + 1].split()
+        if len(parts) >= 2 and parts[1].upper() == b"UNKNOWN":
+            return ("local",)
+        if len(parts) < 6:
+            return ("malformed",)
+        return ("addr", join_host_port(parts[2].decode(), parts[4].decode()))
+    if b[:12] == PROXY_V2_SIG and len(b) >= 16:
+        cmd, fam, ln = b[12] & 0x0f, b[13] >> 4, int.from_bytes(b[14:16], "big")
+        pl = b[16:16 + ln]
+        if len(pl) < ln:
+            return ("malformed",)
+        if cmd == 0:
+            return ("local",)
+        if fam == 1:
+            if len(pl) < 12:
+                return ("malformed",)
+            return ("addr", join_host_port(str(ipaddress.IPv4Address(pl[0:4])), str(int.from_bytes(pl[8:10], "big"))))
+        if fam == 2:
+            if len(pl) < 36:
+                return ("malformed",)
+            return ("addr", join_host_port(ipaddress.IPv6Address(pl[0:16]).compressed, str(int.from_bytes(pl[32:34], "big"))))
+        return ("absent",)
+    return ("absent",)
+
+
+def conn_oracle(source_raw, proxy_raw, remote, prefix):
+    """('refused',) | ('noctx',) | ('ctx', principal, remote, proxyaddr): the ConnContext a connection gets (principal ''
+    = the request's client id decides)."""
+    source = (source_raw or "").strip(WS) or "client_id"
+    src = source.lower()
+    proxy_on = parse_env_bool(proxy_raw) or src == "proxy_addr"
+    if src == "client_id" and not proxy_on:
+        return ("noctx",)
+    peer, paddr = remote, ""
+    if proxy_on:
+        hdr = parse_proxy(prefix)
+        if hdr[0] in ("absent", "malformed"):
+            return ("refused",)
+        if hdr[0] == "addr" and hdr[1] != "":
+            peer = paddr = hdr[1]
+    principal = host_from_addr(peer) if src in ("remote_addr", "proxy_addr") else ""
+    return ("ctx", principal, peer, paddr)
+
+
+def principal_oracle(co, cid):
+    """the principal a request with client id `cid` (None = null) is authorised as on a connection with outcome `co`"""
+    if co[0] == "ctx" and co[1].strip(WS) != "":
+        return co[1].strip(WS)
+    if cid is None or cid.strip(WS) == "":
+        return "anonymous"
+    return cid
+
+
+def proxy_v1(src, sport, proto="TCP4"):
+    return ("PROXY %s %s 10.0.0.99 %s 9092\r\n" % (proto, src, sport)).encode()
+
+
+def proxy_v2(cmd, fam, payload):
+    return PROXY_V2_SIG + bytes([0x20 | cmd, (fam << 4) | 1]) + len(payload).to_bytes(2, "big") + payload
+
+
+def gen_prefix(rng, want):
+    """a PROXY header of the wanted kind: 'addr' 'local' 'bad' (a connection the broker must refuse)"""
+    import ipaddress
+    hosts = ["admin", "alice", "bob", "nobody", "carol", "10.0.0.1", "10.0.0.2", "::1"]
+    if want == "addr":
+        k = rng.below(4)
+        if k <= 1:
+            h = rng.choice(hosts)
+            return proxy_v1(h, str(rng.range(1, 65000)), "TCP6" if ":" in h else "TCP4")
+        if k == 2:
+            ip = rng.choice(["10.0.0.1", "10.0.0.2", "10.0.0.7"])
+            return proxy_v2(1, 1, ipaddress.IPv4Address(ip).packed + ipaddress.IPv4Address("10.0.0.99").packed
+                            + rng.range(1, 65000).to_bytes(2, "big") + (9092).to_bytes(2, "big"))
+        ip = rng.choice(["::1", "fe80::1"])
+        return proxy_v2(1, 2, ipaddress.IPv6Address(ip).packed + ipaddress.IPv6Address("::2").packed
+                        + rng.range(1, 65000).to_bytes(2, "big") + (9092).to_bytes(2, "big"))
+    if want == "local":
+        return rng.choice([b"PROXY UNKNOWN\r\n", b"PROXY unknown ignored fields\r\n", proxy_v2(0, 0, b""), proxy_v2(0, 1, b"\x00" * 12)])
+    return rng.choice([b"", b"", b"PROXY TCP4 10.0.0.1\r\n", proxy_v2(1, 3, b"\x00" * 8), proxy_v2(1, 1, b"\x00" * 4)])
+
+
+CONN_SOURCES = [None, "", "client_id", "Client_ID", " client_id ", "bogus", "remote_addr", "REMOTE_ADDR", " remote_addr",
+                "proxy_addr", "Proxy_Addr ", "proxy_addr"]
+CONN_PROXY = [None, "", "true", "1", "on", "yes", "TRUE", " true ", "false", "0", "off", "maybe"]
+CONN_CIDS = ["admin", "admin", "alice", "bob", "nobody", "nobody", "carol", "dave", "", " ", None, " alice", "10.0.0.1"]
+
+
+def gen_conn_acl(rng):
+    acl = gen_acl(rng)
+
+    def rule():
+        k = rng.below(3)
+        if k == 0:
+            return {"action": rng.choice(["produce", "fetch", "*"]), "resource": "topic", "name": rng.choice(TOPICS + ["*"])}
+        if k == 1:
+            return {"action": rng.choice(["group_read", "group_write", "*"]), "resource": "group", "name": rng.choice(GROUPS + ["*"])}
+        return {"action": "admin", "resource": "cluster", "name": "*"}
+    for who in ("10.0.0.1", "::1"):
+        acl["principals"].append({"name": who, "allow": [rule() for _ in range(rng.below(4))], "deny": [rule() for _ in range(rng.below(2))]})
+    return acl
+
+
+def gen_conn_session(rng, nblocks, nreq):
+    """ONE handler; per block one broker configuration (principal source x PROXY protocol), 2-3 connections with different
+    immutable attributes (socket remote address, PROXY header v1/v2/LOCAL/missing/malformed), requests with DIFFERENT client ids
+    interleaved over the connections — a privileged client id followed by an unprivileged one on the same connection and the
+    other way round."""
+    auto = rng.choice(["1", "0"])
+    acl = gen_conn_acl(rng)
+    ops = ["new %s %s" % (auto, json.dumps(acl).encode().hex())] + SETUP
+    keys = sorted(REQ) + [0, 0, 19, 19, 8, 1, 33, 101]
+    remotes = ["admin:4000", "alice:1", "bob:77", "nobody:5", "10.0.0.1:9", "10.0.0.2:9", "carol", "", "[::1]:555", "a:b:1",
+               " alice:1", "pipe", "dave:", "[bob]:1"]
+
+    def request(cid_pool):
+        k = rng.choice(keys)
+        need, kind, single = REQ[k]
+        if kind == "topic":
+            pool = TOPICS + (["created-by-nobody"] if k in (0, 1, 2, 3, 19) else [])
+            if k in (101, 103):
+                pool = ["orders", "secret", "t1", "Orders", "t2"]
+            names = [rng.choice(pool)] if (single or rng.chance(1, 2)) else list(dict.fromkeys(rng.choice(pool) for _ in range(rng.range(2, 3))))
+        elif kind == "group":
+            names = [rng.choice(GROUPS)] if (single or rng.chance(1, 2)) else list(GROUPS)
+        elif kind == "star":
+            names = ["*"]
+        else:
+            names = ["x"]
+        return rng.choice(cid_pool), k, names
+
+    for b in range(nblocks):
+        # half of the blocks: a ConnContext with an EMPTY principal (PROXY protocol on, client-id principals)
+        if rng.chance(1, 2):
+            source, proxy = rng.choice(CONN_SOURCES[:6]), rng.choice(CONN_PROXY[2:8])
+        else:
+            source, proxy = rng.choice(CONN_SOURCES), rng.choice(CONN_PROXY)
+        ops.append("srv %s %s" % (tok(source), tok(proxy)))
+        src = ((source or "").strip(WS) or "client_id").lower()
+        proxy_on = parse_env_bool(proxy) or src == "proxy_addr"
+        live = []
+        for c in range(rng.range(2, 3)):
+            remote = rng.choice(remotes)
+            prefix = b""
+            if proxy_on:
+                prefix = gen_prefix(rng, rng.choice(["addr", "addr", "addr", "local", "bad"]))
+            cid = "c%d" % c
+            ops.append("conn %s %s %s" % (cid, tok(remote), prefix.hex() or "-"))
+            if conn_oracle(source, proxy, remote, prefix)[0] == "refused":
+                ops.append(("cdo", cid, rng.choice(CONN_CIDS), 0, ["orders"]))   # must be closed without an effect
+            else:
+                live.append(cid)
+        if not live:
+            continue
+        # privileged first, then an unprivileged client id on the SAME connection; and the reverse on another
+        first, second = live[0], live[-1]
+        ops += [("cdo", first, "admin", 0, ["orders"]), ("cdo", first, "nobody", 0, ["orders"]),
+                ("cdo", first, rng.choice(["nobody", "bob", None, ""]), 19, ["created-by-nobody"]),
+                ("cdo", second, rng.choice(["nobody", "bob", None]), rng.choice([0, 8, 33]), [rng.choice(["orders", "g1"])]),
+                ("cdo", second, "admin", 0, ["orders"])]
+        for _ in range(nreq):
+            cid, k, names = request(CONN_CIDS)
+            ops.append(("cdo", rng.choice(live), cid, k, names))
+    # fix the `group`/`topic` name of the mixed forced request, then render the cdo tuples
+    out = []
+    for op in ops:
+        if isinstance(op, tuple):
+            _, conn, cid, k, names = op
+            kind = REQ[k][1]
+            if kind == "group" and names[0] not in GROUPS:
+                names = ["g1"]
+            if kind == "topic" and names[0] in GROUPS:
+                names = ["orders"]
+            out.append(("cdo", conn, cid, k, names))
+        else:
+            out.append(op)
+    return auto, out, acl
+
+
+def render_conn_ops(ops):
+    """tuples -> harness lines, with the expected principal of every request; returns (lines, meta) where meta[i] is None or
+    {'eq': equivalent `do` line, 'conn': outcome, 'idx': connection index in its block, 'cid': client id, 'principal': …}"""
+    lines, meta = [], []
+    source = proxy = None
+    conns, order = {}, []
+    for op in ops:
+        if isinstance(op, tuple):
+            _, conn, cid, k, names = op
+            co = conns[conn]
+            p = principal_oracle(co, cid)
+            body = "%d %s %s" % (k, REQ[k][0], ",".join(enc(n) for n in names))
+            lines.append("cdo %s %s %s %s" % (conn, tok(cid), tok(p), body))
+            meta.append({"eq": "do %s %s" % (enc(p), body), "conn": co, "idx": order.index(conn), "cid": cid, "principal": p})
+            continue
+        f = op.split()
+        if f[0] == "srv":
+            source, proxy = untok(f[1]), untok(f[2])
+            conns, order = {}, []
+        elif f[0] == "conn":
+            conns[f[1]] = conn_oracle(source, proxy, untok(f[2]), b"" if f[3] == "-" else bytes.fromhex(f[3]))
+            if f[1] in order:
+                order.remove(f[1])
+            order.append(f[1])
+        lines.append(op)
+        meta.append(None)
+    return lines, meta
+
+
+def conn_meta_of_lines(lines):
+    """the same bookkeeping from rendered harness lines (replay)"""
+    meta = []
+    source = proxy = None
+    conns, order = {}, []
+    for op in lines:
+        f = op.split()
+        if f[0] == "srv":
+            source, proxy = untok(f[1]), untok(f[2])
+            conns, order = {}, []
+        elif f[0] == "conn":
+            conns[f[1]] = conn_oracle(source, proxy, untok(f[2]), b"" if f[3] == "-" else bytes.fromhex(f[3]))
+            if f[1] in order:
+                order.remove(f[1])
+            order.append(f[1])
+        if f[0] == "cdo":
+            co, cid = conns[f[1]], untok(f[2])
+            p = principal_oracle(co, cid)
+            meta.append({"eq": "do %s %s" % (enc(p), " ".join(f[4:])), "conn": co, "idx": order.index(f[1]), "cid": cid, "principal": p})
+        else:
+            meta.append(None)
+    return meta
+
+
+def expected_ctx(co):
+    if co[0] != "ctx":
+        return "none"
+    return "|".join(enc(x) for x in co[1:])
+
+
+def judge_conn(ck, auto, op, o, acl, m):
+    """monitor for one request that travelled over a connection: (fingerprint, what) | ('BROKE', title, detail) | None"""
+    co = m["conn"]
+    kv = dict(x.split("=", 1) for x in o.split() if "=" in x)
+    if o.startswith("panic") or not o.startswith("do "):
+        return judge(ck, auto, m["eq"], o, acl)
+    if co[0] == "refused":
+        if kv.get("changed", "-") != "-":
+            return ("refused-connection-changed-state", "a connection the broker must refuse (PROXY header required, missing or malformed) "
+                    "changed %s" % kv["changed"])
+        if not o.startswith("do closed"):
+            return ("BROKE", "a connection without the required PROXY header was served", "%s -> %s" % (op, o))
+        return None
+    r = judge(ck, auto, m["eq"], o, acl)
+    if r:
+        return (r[0], "connection %s, client id %r => principal %r: %s" % (co, m["cid"], m["principal"], r[1]))
+    if o.startswith("do closed"):
+        return ("BROKE", "the broker closed a connection it must serve", "%s -> %s" % (op, o))
+    if kv.get("ctx") != expected_ctx(co):
+        return ("BROKE", "the ConnContext of a connection differs from its immutable attributes (model: AclConn.buildConn)",
+                "%s -> %s, expected ctx=%s" % (op, o, expected_ctx(co)))
+    return None
+
+
 def lean_session_lines(acl):
     """the ACL configuration for the Lean driver's session model (cfg / pr / al / dn / open)"""
     h = lambda x: lib.hexs(x.encode())
@@ -477,70 +817,135 @@ def run(ck):
     binary = st["bins"]["b"]
     nsess, nops = (25, 60) if ck.quick() else (300, 120)
     csess, cops = (14, 30) if ck.quick() else (150, 80)
+    ksess, kblocks, kreq = (10, 4, 10) if ck.quick() else (100, 5, 20)
     ck.cov["rule"] = ("sessions = fresh handler + random ACL (admin, alice, bob with random allow/deny rules over topics/groups/cluster incl. "
                       "prefix/* patterns, absent principal 'nobody', anonymous; default deny or allow; auto-create on/off) + seeded state "
                       "(records, group member, config) + random requests over all 21 served request types with 1-3 named resources; "
                       "plus multi-principal collision sessions on ONE handler (principal ids / topic / group names with '|' ':' '/' ' ' ',' "
-                      "that are separator-joined concatenations of each other, P+long name before/after P<glue>mid + target, 4 ACL shapes), "
-                      "every request judged on its own.  Non-trivial = a request with at least one denied item; distinct = distinct (acl, op) pairs")
-    all_ops, autos, acls = [], [], []
+                      "that are separator-joined concatenations of each other, P+long name before/after P<glue>mid + target, 4 ACL shapes); "
+                      "plus connection sessions: the real broker.Server loop + the real buildConnContextFunc for every principal source "
+                      "(client_id / remote_addr / proxy_addr / unknown / unset, any case) x KAFSCALE_PROXY_PROTOCOL (on / off / unset / junk), "
+                      "2-3 connections per configuration (socket remote address with/without port, IPv6, blank; PROXY v1/v2 header with an "
+                      "address, LOCAL/UNKNOWN, missing, malformed), requests with DIFFERENT client ids (incl. null / blank) interleaved on "
+                      "each connection, privileged before unprivileged and the reverse; every request judged on its own.  Non-trivial = a "
+                      "request with at least one denied item; distinct = distinct (acl, op) pairs")
+    all_ops, autos, acls, metas = [], [], [], []
     for s in range(nsess):
         auto, ops, acl = gen_session(ck.rng.fork(), nops)
         all_ops += ops
         autos += [auto] * len(ops)
         acls += [acl] * len(ops)
+        metas += [None] * len(ops)
     for s in range(csess):
         auto, ops, acl = gen_collision_session(ck.rng.fork(), cops)
         all_ops += ops
         autos += [auto] * len(ops)
         acls += [acl] * len(ops)
+        metas += [None] * len(ops)
         ck.count("collision-session")
+    for s in range(ksess):
+        auto, tops, acl = gen_conn_session(ck.rng.fork(), kblocks, kreq)
+        ops, meta = render_conn_ops(tops)
+        all_ops += ops
+        autos += [auto] * len(ops)
+        acls += [acl] * len(ops)
+        metas += meta
+        ck.count("connection-session")
     fn = ck.path("ops_all.txt")
     open(fn, "w").write("\n".join(all_ops) + "\n")
-    rc, out, err = ck.run_bin(binary, stdin_path=fn, env={"VERIF_HARNESS": "C24"}, timeout=600)
+    rc, out, err = ck.run_bin(binary, stdin_path=fn, env={"VERIF_HARNESS": "C24"}, timeout=900)
     impl = out.split("\n")[:-1]
     if rc != 0 or len(impl) != len(all_ops):
         ck.broke("implementation harness did not answer every op", "rc=%s %d/%d %s" % (rc, len(impl), len(all_ops), err[-600:]))
         return
+    # the `do` line a request is judged as: itself, or (connection stream) the same request from the principal the connection's
+    # immutable attributes and THIS request's client id give
+    eq_ops = [op if op.startswith("do ") else (metas[i]["eq"] if metas[i] else None) for i, op in enumerate(all_ops)]
     sess_start = 0
     oracle_diffs = []
+    conn_broke = []
     obits_all = [None] * len(all_ops)
     for i, (op, o) in enumerate(zip(all_ops, impl)):
         if op.startswith("new"):
             sess_start = i
             ck.cov["traces_validated_against_impl"] += 1
             continue
-        who, key, need, names = op_fields(op)
+        if eq_ops[i] is None:
+            if (op.startswith("srv") and not o.startswith("srv func=")) or (op.startswith("conn") and o != "conn ok"):
+                ck.broke("implementation harness could not set up a connection", "%s -> %s" % (op, o))
+                return
+            if op.startswith("srv"):
+                f = op.split()
+                want = "srv func=nil" if conn_oracle(untok(f[1]), untok(f[2]), "", b"")[0] == "noctx" else "srv func=set"
+                if o != want:
+                    conn_broke.append(("buildConnContextFunc returns %s a ConnContextFunc where the model expects the opposite"
+                                       % ("no" if want.endswith("set") else ""), "%s -> %s" % (op, o)))
+            continue
+        who, key, need, names = op_fields(eq_ops[i])
         obits = oracle_bits(acls[i], "" if who == "anonymous" else who, need, names)
         obits_all[i] = obits
         has_denied = "0" in obits
-        ck.count("key%d:%s" % (key, "denied" if has_denied else "allowed"))
+        m = metas[i]
+        if m:
+            co = m["conn"]
+            ck.count("conn:%s:%s" % (co[0] if co[0] != "ctx" else ("ctx-principal" if co[1].strip(WS) else "ctx-empty-principal"),
+                                     "denied" if has_denied else "allowed"))
+        else:
+            ck.count("key%d:%s" % (key, "denied" if has_denied else "allowed"))
         ck.case((all_ops[sess_start], op), nontrivial=has_denied, sample={"op": op, "impl": o[:160]} if has_denied else None)
         if "allowed=" in o and o.split("allowed=")[1].split()[0].split(",") != obits:
             oracle_diffs.append((i, op, o, obits))
-        m = judge(ck, autos[i], op, o, acls[i])
-        if m:
+        v = judge_conn(ck, autos[i], op, o, acls[i], m) if m else judge(ck, autos[i], op, o, acls[i])
+        if v and v[0] == "BROKE":
+            conn_broke.append((v[1], v[2]))
+        elif v:
             # the whole session up to the failing request: the outcome may depend on what other principals asked before
-            ck.violation(m[0], m[1], {"ops": all_ops[sess_start:i + 1], "auto": autos[i], "actual": o})
+            ck.violation(v[0], v[1], {"ops": all_ops[sess_start:i + 1], "auto": autos[i], "actual": o})
+    if conn_broke and not ck.violations:
+        ck.broke("correspondence connection model/implementation: " + conn_broke[0][0], conn_broke[0][1])
     if oracle_diffs and not ck.violations:
         i, op, o, obits = oracle_diffs[0]
         ck.broke("the authorizer's verdict differs from the documented ACL semantics (names exact and case-sensitive) — C23's subject",
                  "acl=%s\nop %s\nimpl : %s\noracle: %s" % (json.dumps(acls[i]), op, o, ",".join(obits)))
     # Lean: (a) the gate model (granularity from the regenerated table) predicts the denied items; (b) the session
     # model (one AclSession.State per session, one `rq` = one h.allow* call) gives every request's decision — it must be
-    # the pure Acl.allows and the Python oracle's verdict, request by request
-    mlines, tags = [], []     # tags: None | ("gate", i) | ("rq", i)
+    # the pure Acl.allows and the Python oracle's verdict, request by request; (c) connection stream: the connection model
+    # (AclConn: buildConn per connection, stepC per h.allow* call) gives the principal and the decision of every request
+    mlines, tags = [], []     # tags: None | ("gate", i) | ("rq", i) | ("cfg",)
+    hx = lambda x: lib.hexs(x.encode())
     for i, (a, op, o, acl) in enumerate(zip(autos, all_ops, impl, acls)):
         if op.startswith("new"):
             for l in lean_session_lines(acl):
                 mlines.append(l)
                 tags.append(None)
             continue
-        who, key, need, names = op_fields(op)
-        for l in lean_rq_lines("" if who == "anonymous" else who, need, names):
-            mlines.append(l)
-            tags.append(("rq", i))
-        mo = model_ops(a, [op], [o], acl)[0]
+        f = op.split()
+        if f[0] == "srv":
+            mlines.append("srv %s %d" % (hx(untok(f[1]) or ""), 1 if parse_env_bool(untok(f[2])) else 0))
+            tags.append(None)
+            continue
+        if f[0] == "conn":
+            hdr = parse_proxy(b"" if f[3] == "-" else bytes.fromhex(f[3]))
+            mlines.append("conn %s %s %s" % (hx(untok(f[2])), hdr[0], hx(hdr[1]) if hdr[0] == "addr" else "-"))
+            tags.append(("conn", i))
+            continue
+        who, key, need, names = op_fields(eq_ops[i])
+        m = metas[i]
+        if m:
+            if m["conn"][0] == "refused":
+                continue
+            if need != "-":
+                for n in names:
+                    for alt in need.split("|"):
+                        ac, r = alt.split(":")
+                        mlines.append("crq %d %s %s %s %s" % (m["idx"], "~" if m["cid"] is None else hx(m["cid"]), hx(ac), hx(r),
+                                                              hx("cluster" if r == "cluster" else n)))
+                        tags.append(("rq", i))
+        else:
+            for l in lean_rq_lines("" if who == "anonymous" else who, need, names):
+                mlines.append(l)
+                tags.append(("rq", i))
+        mo = model_ops(a, [eq_ops[i]], [o], acl)[0]
         if not mo.startswith("#"):
             mlines.append(mo)
             tags.append(("gate", i, mo))
@@ -557,6 +962,21 @@ def run(ck):
             if m != "ok":
                 ck.broke("Lean driver rejected a configuration line", l + " -> " + m)
                 return
+        elif tag[0] == "conn":
+            # the three readings of what a connection gets: Lean AclConn.buildConn, the Python oracle (the harness's ctx= column
+            # is compared with the oracle per request)
+            i = tag[1]
+            f = all_ops[i].split()
+            j = i
+            while not all_ops[j].startswith("srv"):
+                j -= 1
+            g = all_ops[j].split()
+            co = conn_oracle(untok(g[1]), untok(g[2]), untok(f[2]), b"" if f[3] == "-" else bytes.fromhex(f[3]))
+            want = co[0] if co[0] != "ctx" else "ctx %s %s %s" % tuple(hx(x) for x in co[1:])
+            if m != want and not ck.violations:
+                ck.broke("the independent readings of a connection's ConnContext disagree (Lean AclConn.buildConn / Python oracle)",
+                         "%s\n%s\nlean  : %s\noracle: %s" % (all_ops[j], all_ops[i], m, want))
+                return
         elif tag[0] == "rq":
             rq.setdefault(tag[1], []).append(m)
         else:
@@ -566,7 +986,9 @@ def run(ck):
         if op.startswith("new"):
             sess_start = i
             continue
-        who, key, need, names = op_fields(op)
+        if eq_ops[i] is None or (metas[i] and metas[i]["conn"][0] == "refused"):
+            continue
+        who, key, need, names = op_fields(eq_ops[i])
         if need != "-":
             nalt = len(need.split("|"))
             ans = rq.get(i, [])
@@ -576,6 +998,13 @@ def run(ck):
                 return
             sbits = ["1" if any(k["d"] == "1" for k in kvs[j * nalt:(j + 1) * nalt]) else "0" for j in range(len(names))]
             pure = all(k["d"] == k["pure"] for k in kvs)
+            if metas[i]:
+                # the principal: Lean connStep on the connection's state / Lean principalSpec / Python oracle
+                want = hx(metas[i]["principal"])
+                if any(k.get("p") != want or k.get("spec") != want for k in kvs) and not ck.violations:
+                    ck.broke("the independent readings of a request's principal disagree (Lean AclConn.connStep / principalSpec / Python oracle)",
+                             "op %s\nlean : %s\noracle: %s" % (op, ans, want))
+                    return
             if (not pure or sbits != obits_all[i]) and not ck.violations:
                 ck.broke("the independent readings of the ACL disagree (Lean session step / Lean Acl.allows / Python oracle)",
                          "acl=%s\nop %s\nlean : %s\noracle: %s" % (json.dumps(acls[i]), op, ans, ",".join(obits_all[i])))
@@ -613,11 +1042,17 @@ def replay(ck, path):
     rc, out, err = ck.run_bin(st["bins"]["b"], stdin_path=fn, env={"VERIF_HARNESS": "C24"}, timeout=120)
     impl = out.split("\n")[:-1]
     acl = json.loads(bytes.fromhex(ops[0].split()[2]).decode())
+    metas = conn_meta_of_lines(ops)
     print("  acl:", json.dumps(acl))
-    for op, o in zip(ops, impl):
-        print("  %s\n     -> %s" % (op[:100] if op.startswith("do") else op[:12] + "…", o))
-        ck.case(op, sample={"op": op[:100], "impl": o[:160]})
-        m = judge(ck, rep.get("auto", ops[0].split()[1]), op, o, acl)
+    for op, o, m in zip(ops, impl, metas):
+        print("  %s\n     -> %s" % (op[:100] if not op.startswith("new") else op[:12] + "…", o))
         if m:
-            ck.violation(m[0], m[1], {"ops": ops, "actual": o})
+            print("     connection %s, client id %r => principal %r" % (m["conn"], m["cid"], m["principal"]))
+        ck.case(op, sample={"op": op[:100], "impl": o[:160]})
+        auto = rep.get("auto", ops[0].split()[1])
+        v = judge_conn(ck, auto, op, o, acl, m) if m else judge(ck, auto, op, o, acl)
+        if v and v[0] == "BROKE":
+            ck.broke("correspondence connection model/implementation: " + v[1], v[2])
+        elif v:
+            ck.violation(v[0], v[1], {"ops": ops, "actual": o})
     ck.cov["distinct_nontrivial"] = max(ck.cov["distinct_nontrivial"], 2)
